@@ -50,7 +50,7 @@ func c12PatternOf(re *regexp.Regexp) string {
 	return re.String()
 }
 
-var c12Ints = []int{0, 3, 250}
+var c12Ints = []int{0, 3, 250, 100000}
 
 // c12Send pushes one command through the real client SendMessage and returns the bytes put on the wire.
 func c12Send(h *handlers.ClientHandler, cmd string) []byte {
